@@ -10,4 +10,10 @@ fn main() {
     println!("empty span at end displays {:?}", format!("{}", s2));
     let r = std::panic::catch_unwind(|| { let s = Span::new("", 0, 0).unwrap(); format!("{}", s) });
     println!("Span over empty input: {:?}", r.map_err(|_| "PANIC"));
+    _select();
+}
+// (added for R14-SELECT) a span that starts exactly at the start of a line other than the first
+fn _select() {
+    let s = Span::new("ab\ncd", 3, 5).unwrap();
+    println!("span `cd` of \"ab\\ncd\" displays:\n{}", s);
 }
